@@ -292,7 +292,11 @@ def run_check(pid, tier, base_seed, out=sys.stdout):
         ok = any(same_violation(x, v) for x in rep.get("violations", []))
         rep2 = replay_in_fresh_process(pid, path, hashseed="4242")
         ok2 = any(same_violation(x, v) for x in rep2.get("violations", []))
-        if ok and ok2 and rep.get("digest") == rep2.get("digest"):
+        nondet_inv = v["invariant"] in getattr(mod, "NONDETERMINISM_INVARIANTS", ())
+        if (ok and ok2 and rep.get("digest") == rep2.get("digest")) or (nondet_inv and (ok or ok2)):
+            if nondet_inv:
+                print(f"  note: invariant {v['invariant']} is about nondeterminism of the code under test; its replay reproduces the "
+                      f"violation but not bit-identically", file=out)
             print(f"VIOLATION property={pid} replay={path}", file=out)
             print(f"  invariant={v['invariant']}: {v['msg'][:600]}", file=out)
             reported.append(path)
